@@ -36,6 +36,29 @@ mod k {
         v
     }
 
+    // C08 corner case: an envelope without any element has K = 0 and an all-zero report, whatever the globals
+    #[kani::proof]
+    fn c08_k_no_elements() {
+        let g = GlobalProps {
+            a_ref: any_finite(),
+            vol_env_gross: any_finite(),
+            vol_env_net: any_finite(),
+            vol_env_inh_net: any_finite(),
+            compactness: any_finite(),
+            global_ventilation_rate: any_finite(),
+            n_50_test_ach: None,
+            c_o_100: any_finite(),
+            occ_spaces_hours_in_use: kani::any(),
+            occ_spaces_average_load: any_finite(),
+        };
+        let props = empty_props(g);
+        let k = KData::from(&props);
+        assert!(k.K == 0.0, "C08.empty.K");
+        let s = k.summary;
+        assert!(s.a == 0.0 && s.au == 0.0 && s.opaques_a == 0.0 && s.windows_a == 0.0 && s.tbs_l == 0.0 && s.tbs_psil == 0.0, "C08.empty.summary");
+        assert!(k.walls.u_mean.is_none() && k.windows.u_min.is_none() && k.ground.u_max.is_none(), "C08.empty.no_stats");
+    }
+
     // C09 corner cases that do not depend on the element maps: no envelope wall at all.
     // For EVERY GlobalProps: A_o = A_h = 0; C_o,ref = c_o_100; n50_ref = 0 when V <= 0 (and 0.629*0/V = 0 otherwise);
     // n50 = test value when given, else the reference value; wall permeability = C_o (zero-wall-area branch).
@@ -518,7 +541,7 @@ mod n {
     fn n_c10_qsoljul() {
         drive(
             "C10.qsoljul",
-            "QSolJulData::from(&EnergyProps, table): 2 windows each over orientation {S,NE,HZ} x host boundary {EXTERIOR,GROUND,INTERIOR} x in/out x multiplier {1,2} x computed F_sh,obst {none,0.8} x override {none,0.6} x construction {present,missing}; A_ref {100, 0}; 9-entry irradiation table of distinct primes",
+            "QSolJulData::from(&EnergyProps, table): 2 windows each over orientation {S,NE,HZ} x host boundary {EXTERIOR,GROUND,INTERIOR} x in/out x multiplier {1,2} x computed F_sh,obst {none,0.8} x override {none,0.6,0.95} x construction {present,missing}; A_ref {100, 0}; 9-entry irradiation table of distinct primes",
             |c| {
                 let a_ref = c.of(&[100.0f32, 0.0]);
                 let mut g = globals();
@@ -537,7 +560,7 @@ mod n {
                     let tenv = c.flag();
                     let m = c.of(&[1.0f32, 2.0]);
                     let fsh = c.of(&[None, Some(0.8f32)]);
-                    let fov = c.of(&[None, Some(0.6f32)]);
+                    let fov = c.of(&[None, Some(0.6f32), Some(0.95)]);
                     let has_cons = c.flag();
                     let area = 1.5f32 + i as f32;
                     let win = WinProps {
@@ -1005,6 +1028,46 @@ mod n {
                 c.nontrivial(format!("{} {:?} {} {}", wv, obs, az, alt));
             }
             c.sample(|| format!("variant {} obstacles {:?} az {} alt {} -> {}", wv, obs, az, alt, f));
+        });
+    }
+
+    // the reveal surfaces of a set-back window shade THAT window only
+    #[test]
+    fn n_c12_reveals() {
+        drive("C12.reveals", "Model::sunlit_fraction with two set-back windows A, B on one south wall (setback {0.3, 0.8}) x sun azimuth {-80,-60,0,60,80} x altitude {8,35}: A with B present == A alone; own reveals hide part of A under grazing sun; set-back never raises the fraction", |c| {
+            let sb = c.of(&[0.3f32, 0.8]);
+            let az = c.of(&[-80.0f32, -60.0, 0.0, 60.0, 80.0]);
+            let alt = c.of(&[8.0f32, 35.0]);
+            c.note(format!("setback {} sun az {} alt {}", sb, az, alt));
+            let build = |with_b: bool, sb_a: f32| -> Model {
+                let mut m = mk::empty_model();
+                m.spaces.push(mk::space(0xA0, true, ST::CONDITIONED, 1.0, 3.0));
+                m.walls.push(mk::wall(1, BT::EXTERIOR, mk::uid(0xA0), None, mk::uid(0xC0), 90.0, 0.0, mk::rect(6.0, 3.0), Some(point![0.0, 0.0, 0.0])));
+                m.windows.push(mk::window(0x11, mk::uid(1), mk::uid(0xD0), 1.0, 1.0, Some(point![1.0, 1.0]), sb_a));
+                if with_b {
+                    m.windows.push(mk::window(0x12, mk::uid(1), mk::uid(0xD0), 1.0, 1.0, Some(point![3.0, 1.0]), sb));
+                }
+                m
+            };
+            let dir = ray_dir_to_sun(az, alt);
+            let f = |m: &Model| -> f32 {
+                let w = &m.windows[0];
+                m.sunlit_fraction(w, &m.ray_origins_for_window(w), &dir, &m.collect_occluders())
+            };
+            let both = f(&build(true, sb));
+            let alone = f(&build(false, sb));
+            let flush = f(&build(true, 0.0));
+            c.check("C12.reveals.only_own", both == alone, || format!("window A: sunlit {} with window B present, {} alone", both, alone));
+            c.check("C12.reveals.never_raise", both <= flush, || format!("set back {}: sunlit {} but flush window {}", sb, both, flush));
+            c.check("C12.reveals.range", (0.0..=1.0).contains(&both), || format!("sunlit {}", both));
+            if az.abs() >= 60.0 {
+                // grazing sun: the side reveal hides a strip of width setback * tan(az) (capped by the window)
+                c.check("C12.reveals.own_reveals_shade", both < 0.95, || format!("grazing sun (az {}), setback {}: sunlit {} - the window's own reveals shade nothing", az, sb, both));
+            }
+            if both < 1.0 {
+                c.nontrivial(format!("{} {} {}", sb, az, alt));
+            }
+            c.sample(|| format!("setback {} az {} alt {} -> with B {} alone {} flush {}", sb, az, alt, both, alone, flush));
         });
     }
 
